@@ -1006,3 +1006,41 @@ func evenOnly(v int) string {
 	}
 	return ""
 }
+
+// FailingProgs: generators whose attempts can also FAIL (not only be rejected) - a failure raised while a
+// Filter or Custom attempt is on the stack. They are not part of AllProgs (C03 would call the failure a
+// contract violation); C04 and C13 replay them: same bits, same values and the same verdict.
+func FailingProgs() []Prog {
+	return []Prog{
+		one("Custom(IntRange(0,7): odd rejected, >=6 Fatalf)", "rej fails", func() *rapid.Generator[int] {
+			return rapid.Custom(func(t *rapid.T) int {
+				v := rapid.IntRange(0, 7).Draw(t, "v")
+				if v%2 == 1 {
+					t.Skip("odd")
+				}
+				if v >= 6 {
+					t.Fatalf("generator function fails for %d", v)
+				}
+				return v
+			})
+		}, nil),
+		one("IntRange(0,7).Filter(even, predicate panics on 5)", "rej fails", func() *rapid.Generator[int] {
+			return rapid.IntRange(0, 7).Filter(func(v int) bool {
+				if v == 5 {
+					panic("predicate can not handle 5")
+				}
+				return v%2 == 0
+			})
+		}, nil),
+		one("Custom(Custom(Errorf for 4) + Filter)", "rej fails", func() *rapid.Generator[int] {
+			inner := rapid.Custom(func(t *rapid.T) int {
+				v := rapid.IntRange(0, 7).Draw(t, "v")
+				if v == 4 {
+					t.Errorf("inner generator function fails non-fatally for %d", v)
+				}
+				return v
+			})
+			return rapid.Custom(func(t *rapid.T) int { return inner.Filter(func(v int) bool { return v != 1 }).Draw(t, "inner") })
+		}, nil),
+	}
+}
